@@ -123,3 +123,136 @@ def grpdom_fmt(k):
     if k[0] == 'truth':
         return k[1]
     return str(k[1])
+
+
+# ---------------------------------------------------------------------------------------------- digit loops
+import re as _re
+from .cfg import CFG as _CFG
+
+
+def _digit_loop_specs(prog):
+    out = []
+    for f in sorted(prog.functions.values(), key=lambda f: f['qn']):
+        if 'body' not in f:
+            continue
+        base = strip_tmpl(f['qn'])
+        if base == NS + 'wnaf_table_multiply':
+            p = [x['name'] for x in f['params']]
+            out.append((f, p[0], [(p[2], p[1], None, ZPoly.const(1))]))
+        elif f['qn'] == NS + 'G1::multiply_endomorphism' and len(f['params']) == 5:
+            p = [x['name'] for x in f['params']]
+            out.append((f, 'this', [('L:wc0', 'L:wt', p[2], ZPoly.const(1)), ('L:wc1', 'L:wt', p[4], ZPoly.var('ENDO'))]))
+        elif f['qn'] == NS + 'G2::multiply_frobenius' and 'PowersOfX' in f['params'][1]['t']['s']:
+            out.append((f, 'this', [('L:wb[L:j]', 'L:wt[L:j]', None, ZPoly.const(1))]))
+    return out
+
+
+def rule_digit_loops(ctx, cfg, prog, rule='R-POLY/digits'):
+    """every update of the accumulator inside a w-NAF digit loop is, in the discrete-log domain with table[k] = (2k+1) base,
+    acc := [2] acc + digit * (flag sign) * base  for a declared (digit stream, table) pair - on every path"""
+    n = 0
+    for (f, acc, pairs) in _digit_loop_specs(prog):
+        g = _CFG(f)
+        short = strip_tmpl(f['qn']).replace(NS, '') + ('<' + f['qn'].split('<', 1)[1][:40] if 'wnaf_table_multiply' in f['qn'] else '')
+        try:
+            segs = []
+            for (frm, to, path) in grpdom.segments(g):
+                for (seg, conds) in grpdom.run_path_all(prog, f, g, path):
+                    if seg is not None:
+                        segs.append((frm, to, seg, conds))
+        except grpdom.Unsupported as e:
+            raise bm.AnalysisBroken('R-POLY/digits cannot model %s: %s' % (f['qn'], e))
+        for (frm, to, seg, conds) in segs:
+            eff = seg.effects()
+            if acc not in eff:
+                continue
+            got = eff[acc]
+            if not isinstance(got, Elt):
+                continue
+            seen = {}
+            contradictory = False
+            for (k, lab) in conds:
+                if k[0] in ('cmp', 'truth') and seen.setdefault(k, lab) != lab:
+                    contradictory = True
+            if contradictory:
+                continue
+            cd = {k: lab for (k, lab) in conds}
+            tables = {b: c for b, c in got.t.items() if isinstance(b, str) and '.table[' in b}
+            others = {b: c for b, c in got.t.items() if b != acc and b not in tables}
+            if not tables and not (acc in got.t) and not others:
+                continue            # initialisation to the identity
+            bad = []
+            if others:
+                bad.append('the accumulator receives %s, which is neither the accumulator nor a table entry' % sorted(map(str, others))[:2])
+            c = got.t.get(acc, ZPoly())
+            found = None
+            loopstart = False
+            for k, lab in cd.items():
+                if k[0] == 'truth' and 'found_one' in k[1]:
+                    found = lab
+                if k[0] == 'cmp' and k[1] == '!=' and '-1' in (k[2], k[3]) and lab:
+                    loopstart = True
+            if tables or (acc in got.t):
+                if loopstart:
+                    want_c = [2] if found else [1, 2]
+                else:
+                    want_c = [1]
+                if not (c.is_const() and c.const_value() in want_c):
+                    bad.append('the accumulator is scaled by %r (doubling exactly once per digit position, when an earlier digit was non-zero)' % c)
+            used = set()
+            for b, coef in tables.items():
+                m = _re.match(r'^(.*)\.table\[\((-1\*)?(.*)>>1\)\]$', b)
+                if not m:
+                    bad.append('table lookup %s is not of the form table[|digit| >> 1]' % b)
+                    continue
+                T, neg, digit = m.group(1), bool(m.group(2)), m.group(3)
+                md = _re.match(r'^(.*)\.wnaf\[(.*)\]$', digit)
+                pr_ = [p for p in pairs if md and p[0] == md.group(1) and p[1] == T]
+                if not pr_:
+                    bad.append('lookup %s pairs digit stream %s with table %s, which is not a declared pair' % (b, md.group(1) if md else digit, T))
+                    continue
+                S, T_, flag, op = pr_[0]
+                if (S, coef) in used:
+                    bad.append('stream %s contributes twice' % S)
+                used.add((S, coef))
+                fs = 1
+                if flag is not None:
+                    fl = cd.get(('truth', flag))
+                    if fl is None:
+                        bad.append('the sign flag %s is not looked at on this path' % flag)
+                    fs = -1 if fl else 1
+                want = op * ((-1 if neg else 1) * fs)
+                if grpdom.norm(coef) != grpdom.norm(want):
+                    bad.append('table entry for digit %s enters with coefficient %r, digit * sign * base requires %r' % (digit, coef, want))
+                # the guards that make the lookup meaningful
+                dpos = None
+                dnz = None
+                inrange = None
+                for k, lab in cd.items():
+                    if k[0] == 'cmp' and digit in (k[2], k[3]) and '0' in (k[2], k[3]):
+                        if k[1] == '!=':
+                            dnz = lab
+                        if k[1] == '==':
+                            dnz = not lab
+                        if k[1] == '>' and k[2] == digit:
+                            dpos = lab
+                        if k[1] == '<' and k[2] == digit:
+                            dpos = not lab if dnz else None
+                    if k[0] == 'cmp' and k[1] == '<' and k[3] == S + '.wnaf_size':
+                        inrange = lab
+                if dnz is not True:
+                    bad.append('digit %s is used without being known non-zero' % digit)
+                if dpos is None or dpos == neg:
+                    bad.append('the sign test of digit %s does not match the lookup (%s lookup on the %s branch)' % (digit, 'negated' if neg else 'plain', 'positive' if dpos else 'non-positive'))
+                if inrange is False:
+                    bad.append('digit %s is read beyond %s.wnaf_size' % (digit, S))
+            if tables:
+                fo = [v for l, v in eff.items() if 'found_one' in l]
+                if not (fo and isinstance(fo[0], ZPoly) and fo[0].is_const() and fo[0].const_value() == 1):
+                    bad.append('a digit is added without recording found_one (the next doubling would be skipped)')
+            n += 1
+            cat = ', '.join('%s=%s' % (grpdom_fmt(k), 'T' if lab else 'F') for (k, lab) in dict.fromkeys(conds))
+            ctx.ob(rule, not bad, 'digits|%s|%s->%s|%s' % (short, frm, to, cat[:150]), loc_str(f),
+                   '%s, segment %s -> %s on the path [%s]: %s' % (short, frm, to, cat, ' ;; '.join(bad[:3])), cfg=cfg,
+                   sample=dict(config=cfg, routine=short, segment='%s->%s' % (frm, to)))
+    return n
